@@ -29,6 +29,7 @@ type Ctx struct {
 	Samples []interface{}
 	// limbPositional names abstract Element inputs by position (for sibling comparison)
 	limbPositional bool
+	limbInts       []int64 // concrete values for integer parameters (variant comparison)
 	cglob          map[string]map[string]absint.Val
 	Extra   map[string]interface{}
 }
